@@ -50,7 +50,7 @@ type TagTable struct {
 func newTagTable() *TagTable { return &TagTable{byName: map[string]int{}, names: []string{"<nil>"}, types: []types.Type{nil}} }
 
 func (t *TagTable) tagOf(ty types.Type) int {
-	n := types.TypeString(ty, nil)
+	n := canonType(types.TypeString(ty, nil))
 	if id, ok := t.byName[n]; ok {
 		return id
 	}
@@ -140,7 +140,12 @@ func sanitize(s string) string {
 }
 
 func typeKey(t types.Type) string {
-	return types.TypeString(t, func(p *types.Package) string { return p.Name() })
+	return canonType(types.TypeString(t, func(p *types.Package) string { return p.Name() }))
+}
+
+// canonType: `any` and `interface{}` are the same Go type and must get the same tag and store names.
+func canonType(s string) string {
+	return strings.ReplaceAll(s, "interface{}", "any")
 }
 
 // sortOf maps a Go type to its SMT sort.
